@@ -82,6 +82,30 @@ def specStepN (d : Spec.Design) : Nat → Spec.MState → List String → List S
     | some (σ, m') => specStepN d n m' (showSpecState d σ m' :: acc)
     | none => (acc.reverse, "DivideByZero")
 
+/-- validity of a schedule produced by the real code: `(kind (write?) (reads...))` in execution order.
+    Every read wire is known (constant / register-bank output) or written by an earlier action, no
+    wire is written twice or is a known one, the state-changing actions come after all others, and the
+    E write port comes before the M write port. -/
+def schedValid (known : List String) (acts : List (String × List String × List String)) : Bool :=
+  let rec go (avail : List String) (written : List String) (seenFinal : Bool) (seenM : Bool) :
+      List (String × List String × List String) → Bool
+    | [] => true
+    | (kind, ws, rs) :: rest =>
+      let isFinal := kind == "writereg" || kind == "writemem" || kind == "setstatus"
+      let readsOk := rs.all avail.contains
+      let writesOk := ws.all (fun w => !written.contains w && !known.contains w)
+      let orderOk := isFinal || !seenFinal
+      let isM := kind == "writereg" && rs.contains "reg_dstM"
+      let isE := kind == "writereg" && rs.contains "reg_dstE"
+      let emOk := !(isE && seenM)
+      readsOk && writesOk && orderOk && emOk && go (avail ++ ws) (written ++ ws) (seenFinal || isFinal) (seenM || isM) rest
+  go known [] false false acts
+
+def decodeIActions (l : List SExp) : List (String × List String × List String) :=
+  l.filterMap fun e => match e with
+    | .list [.atom k, .list ws, .list rs] => some (k, atoms ws, atoms rs)
+    | _ => none
+
 def handleProg (fields : List SExp) : String :=
   let fl := decodeFlags (field fields "flags")
   let cls := decodeCls (field fields "cls")
@@ -99,17 +123,23 @@ def handleProg (fields : List SExp) : String :=
           | .ok s0 =>
             let (states, fin) := stepN fl p (natField fields "cycles" 1) s0 []
             "ok" ++ String.join (states.map (" " ++ ·)) ++ " end=" ++ fin
+      let sched : String := match Program.new fl cls {} y86FixedFunctions stmts with
+        | .ok p =>
+          let known := p.constants.keys ++ p.banks.flatMap (fun b => b.signals.map (·.2.1))
+          let ia := decodeIActions (field fields "iactions")
+          if ia.isEmpty then "-" else if schedValid known ia then "sched-ok" else "sched-INVALID"
+        | .error _ => "-"
       let fs := Spec.faults fl cls.isLower cls.isUpper stmts
       if !fs.isEmpty then
         let names := sortStrings (fs.map fun f => (((repr f.cls).pretty.splitOn ".").getLast!) ++ ":" ++ f.name)
-        s!"M {model} ;; S rej {" ".intercalate names}"
+        s!"M {model} ;; S rej {" ".intercalate names} ;; V {sched}"
       else
       let d := Spec.design stmts
       let image : List (Nat × Nat) := (pairList (field fields "mem")).filterMap fun p =>
         match p.1.toNat?, p.2.toNat? with | some a, some b => some (a, b) | _, _ => none
       let (sstates, sfin) := specStepN d (natField fields "cycles" 1) (Spec.initialState d image) []
       let spec := "ok" ++ String.join (sstates.map (" " ++ ·)) ++ " end=" ++ sfin
-      s!"M {model} ;; S {spec}"
+      s!"M {model} ;; S {spec} ;; V {sched}"
   | _ => "bad-request no-stmts"
 
 def handle (line : String) : String :=
